@@ -12,6 +12,9 @@ from simlib.props import c02
 
 ID = "C07"
 LEVEL = "exploration"
+# a worker that hangs or blows up in native code while running a case of this
+# property is re-run in a sandboxed interpreter; a second hang is the verdict
+HANG_IS_VIOLATION = True
 TECHNIQUE = ("deterministic simulation with fault injection: stored-byte "
              "faults (deleted / emptied / truncated / garbage shard) under "
              "every iteration interface; which worker meets the damaged shard "
